@@ -25,6 +25,7 @@ def gen_case(g):
         t += length + max(dead, 1) + int(g.integers(1, 50)) * 2 ** int(g.integers(10, 20))
     stop = gtis[-1][1]
     ncomp = int(g.integers(1, 7))
+    all_outside = g.uniform() < 0.04          # every event outside the fiducial rectangle: the cut empties the list (an empty file is written)
     used = set()
     comps = []
     tag = 1
@@ -41,8 +42,10 @@ def gen_case(g):
             if tt in used:
                 continue
             used.add(tt)
-            r = g.uniform()
-            if r < 0.75:
+            r = g.uniform() if not all_outside else 0.8
+            if all_outside:
+                x, y = float(g.choice([-1., 1.]) * g.uniform(7., 8.)), float(g.uniform(-8, 8))
+            elif r < 0.75:
                 x, y = float(g.uniform(-6.5, 6.5)), float(g.uniform(-6.5, 6.5))
             elif r < 0.9:
                 x, y = float(g.uniform(-8, 8)), float(g.uniform(-8, 8))
@@ -115,7 +118,7 @@ def model_line(case):
                                                  f2b(hx), f2b(hy), len(flat), ' '.join(map(str, flat)))
 
 
-def invariants(res, gtis_s, dead_s, hx, hy, check_gti=True):
+def invariants(res, gtis_s, dead_s, hx, hy, check_gti=True, rows=None):
     """The property statement evaluated directly on a written file. Returns a list of violated clauses."""
     bad = []
     t = res['time']
@@ -149,6 +152,19 @@ def invariants(res, gtis_s, dead_s, hx, hy, check_gti=True):
             bad.append('SRC_ID %s not in ROITABLE %s' % (sorted(set(res['src'])), res['roi']))
     if 'tag' in res and n and not (res['tag'] == res['mctag']).all():
         bad.append('EVENTS and MONTE_CARLO rows are not aligned')
+    if rows is not None and n:
+        # every written row is one of the rows that went in, whole: the tag (PHA / MC_PHA) still sits next to the time, the source
+        # identifier and the detector position it was created with
+        by_tag = {r[4]: r for r in rows}
+        for i in range(n):
+            r = by_tag.get(int(res['tag'][i]))
+            if r is None:
+                bad.append('row %d carries the tag %d that no input row had' % (i, int(res['tag'][i])))
+                break
+            if res['time'][i] != r[0] * TICK or int(res['src'][i]) != r[1] or abs(res['detx'][i] - r[2]) > 1e-5 or abs(res['dety'][i] - r[3]) > 1e-5:
+                bad.append('row %d (tag %d): TIME, SRC_ID, DETX, DETY = %r, %d, %.4f, %.4f but the event with that tag was created with %r, %d, %.4f, %.4f' % (
+                    i, int(res['tag'][i]), res['time'][i], int(res['src'][i]), res['detx'][i], res['dety'][i], r[0] * TICK, r[1], r[2], r[3]))
+                break
     return bad
 
 
@@ -178,7 +194,7 @@ def run_cases(chk, n, tagname, budget=1):
         except BaseException as e:
             chk.fail('impl', 'writing the event list failed: %s: %s on %s' % (type(e).__name__, e, short), dict(oracle='finalize', case=c, error=str(e)))
             continue
-        bad = invariants(res, [(a * TICK, b * TICK) for a, b in c['gtis']], c['dead'] * TICK, hx, hy)
+        bad = invariants(res, [(a * TICK, b * TICK) for a, b in c['gtis']], c['dead'] * TICK, hx, hy, rows=[r for comp in concrete(c) for r in comp])
         if bad:
             chk.fail('impl', 'written file violates: %s (case %s)' % ('; '.join(bad), short), dict(oracle='finalize', case=c, violated=bad))
             continue
@@ -227,6 +243,37 @@ def simulated(chk, tagname, budget=1):
                              dict(oracle='simulate', args=desc, violated=bad))
 
 
+def float_regime(chk, tagname, budget=1):
+    """the dead-time veto on realistic (non-dyadic) numbers: mission times of a few 1e8 s, where a double resolves 3-6e-8 s, the default
+    1.08 ms dead time, kHz rates. The statement is evaluated in the arithmetic the file holds: the difference of two nearby doubles is exact,
+    so `TIME[i+1] - TIME[i] >= deadtime` is an exact test; every vetoed event lies within one dead time of the last accepted one before it"""
+    import evfile
+    g = rng(tagname)
+    for k in range((2 if chk.tier == 'quick' else 10) * budget):
+        t0 = float(g.choice([2.0e8, 2.7e8, 3.0e8, 3.3e8])) + float(g.uniform(0., 1.e6))
+        dead = float(g.choice([0.00108, 0.001, 0.00125]))
+        n = 150000
+        t = numpy.sort(t0 + g.uniform(0., n / 3000., n))
+        el = evfile.make_event_list(t, tag=numpy.arange(n) % 30000)
+        el.apply_dead_time(dead)
+        kept = numpy.array(el.time(), dtype=float)
+        chk.case(dict(op='apply_dead_time-float', met=t0, deadtime=dead, events=n, kept=len(kept)), nontrivial=True)
+        d = numpy.diff(kept)
+        short = numpy.where(d < dead)[0]
+        if len(short):
+            j = int(short[0])
+            chk.fail('impl', 'dead time %r at MET %.1f: %d accepted pairs are closer than one dead time (rows %d, %d: %.10f s, short by %.2e s)' % (
+                dead, t0, len(short), j, j + 1, d[j], dead - d[j]), dict(oracle='float-regime', met=t0, deadtime=dead, seed_index=k))
+            continue
+        # maximality: a vetoed event is within one dead time of the accepted event before it
+        idx = numpy.searchsorted(kept, t, side='right') - 1
+        vetoed = ~numpy.isin(t, kept)
+        late = vetoed & (t - kept[numpy.maximum(idx, 0)] >= dead)
+        if late.any():
+            chk.fail('impl', 'dead time %r at MET %.1f: %d events were vetoed although a full dead time had elapsed since the last accepted event' % (dead, t0, int(late.sum())),
+                     dict(oracle='float-regime-maximal', met=t0, deadtime=dead, seed_index=k))
+
+
 def main(chk):
     chk.rule = ('crafted components (1–6 incl. empty ones, 0–40 rows each, distinct dyadic times inside 1–4 GTIs, dense clusters well above 1/deadtime, '
                 'coordinates inside/outside/exactly on the fiducial boundary) concatenated through xEventList.__add__ in two orders, finalized and written by '
@@ -239,6 +286,7 @@ def main(chk):
     n = 60 if chk.tier == 'quick' else 1500
     run_cases(chk, n, 'C04-corr')
     simulated(chk, 'C04-sim')
+    float_regime(chk, 'C04-float')
     return chk.finish(level='proof', trusted=TRUSTED, search=lambda k: run_cases(chk, n, 'C04-search', k))
 
 
